@@ -22,6 +22,15 @@ fn base_packet() -> Vec<u8> {
     crate::enc::encode(&m, crate::enc::Layout::Literal).bytes
 }
 
+/// A response with records in the answer and authority sections (setters must not care) and the same OPT.
+fn base_packet_with_records() -> Vec<u8> {
+    let mut o = opt_rec();
+    o.ttl = 0x0100_0000 | EXT_FLAGS as u32;
+    let a = |n: &str| Record { owner: Name::from_dotted(n), rtype: T_A, class: 1, ttl: 5, rdata: Rdata::A([1, 2, 3, 4]) };
+    let m = Message { id: 0x5aa5, flags: 0x8000, qd: vec![Question { name: Name::from_dotted("c12.example"), qtype: 1, qclass: 1 }], an: vec![a("c12.example")], ns: vec![a("ns.c12.example")], ar: vec![a("x.c12.example"), o], ..Default::default() };
+    crate::enc::encode(&m, crate::enc::Layout::Literal).bytes
+}
+
 #[derive(Clone, Copy, Debug, PartialEq, Eq)]
 pub enum Setter {
     Flags = 0,
@@ -72,7 +81,10 @@ pub fn eval(pp: &mut ParsedPacket, base: &[u8], setter: Setter, word: u16, arg: 
         Setter::CRcode => unsafe { (dnssector::c_abi::fn_table().set_rcode)(pp as *mut ParsedPacket, arg as u8) },
         Setter::COpcode => unsafe { (dnssector::c_abi::fn_table().set_opcode)(pp as *mut ParsedPacket, arg as u8) },
     });
-    let desc = || format!("setter={:?} header word={:#06x} arg={:#x}", setter, word, arg);
+    let base_id = ((base[0] as u16) << 8) | base[1] as u16;
+    // objects without an OPT record (the 12-byte packet of ParsedPacket::empty()) have no extended flags
+    let ext_flags: u32 = if base.len() > 12 { EXT_FLAGS as u32 } else { 0 };
+    let desc = || format!("setter={:?} header word={:#06x} arg={:#x} object={}", setter, word, arg, match base.len() { 12 => "ParsedPacket::empty() (12 bytes)", l if l > 60 => "response with answer and authority records + OPT", _ => "query + OPT" });
     if let Err(pm) = r {
         fail!(format!("C12 setter-panic {:?} {}", setter, panic_sig(&pm)), "{} {}", pm, desc());
     }
@@ -93,7 +105,7 @@ pub fn eval(pp: &mut ParsedPacket, base: &[u8], setter: Setter, word: u16, arg: 
     if setter == Setter::Tid {
         ensure!(id_after == arg as u16, "C12 Tid field-not-set", "{}: id became {:#06x}", desc(), id_after);
     } else {
-        ensure!(id_after == 0xa55a, format!("C12 {:?} touched-id", setter), "{}", desc());
+        ensure!(id_after == base_id, format!("C12 {:?} touched-id", setter), "{}", desc());
     }
     ensure!(after[4..] == before[4..], format!("C12 {:?} touched-counts-or-body", setter), "{}", desc());
     // getters
@@ -102,7 +114,7 @@ pub fn eval(pp: &mut ParsedPacket, base: &[u8], setter: Setter, word: u16, arg: 
         Err(pm) => fail!(format!("C12 getter-panic {}", panic_sig(&pm)), "{} {}", pm, desc()),
         Ok(g) => g,
     };
-    ensure!(flags >> 16 == EXT_FLAGS as u32, "C12 flags-upper-half", "{}: flags()={:#x}", desc(), flags);
+    ensure!(flags >> 16 == ext_flags, "C12 flags-upper-half", "{}: flags()={:#x}", desc(), flags);
     ensure!(flags as u16 == w_after & FLAG_BITS, "C12 flags-getter", "{}: flags()={:#x} word={:#06x}", desc(), flags, w_after);
     ensure!(rcode as u16 == w_after & 0x0f, "C12 rcode-getter", "{}: rcode()={}", desc(), rcode);
     ensure!(opcode as u16 == (w_after >> 11) & 0x0f, "C12 opcode-getter", "{}: opcode()={}", desc(), opcode);
@@ -129,8 +141,14 @@ pub fn eval(pp: &mut ParsedPacket, base: &[u8], setter: Setter, word: u16, arg: 
 }
 
 fn encode_case(s: Setter, word: u16, arg: u32) -> Vec<u8> {
+    encode_case_obj(s, word, arg, 0)
+}
+
+/// `obj`: 0 = query + OPT, 1 = response with records in every section, 2 = ParsedPacket::empty()
+fn encode_case_obj(s: Setter, word: u16, arg: u32, obj: u8) -> Vec<u8> {
     let mut v = vec![s as u8, (word >> 8) as u8, word as u8];
     v.extend_from_slice(&arg.to_be_bytes());
+    v.push(obj);
     v
 }
 
@@ -151,7 +169,13 @@ pub fn replay_c12(data: &[u8]) -> PResult {
     };
     let word = ((data[1] as u16) << 8) | data[2] as u16;
     let arg = u32::from_be_bytes([data[3], data[4], data[5], data[6]]);
-    let base = base_packet();
+    let obj = data.get(7).copied().unwrap_or(0);
+    if obj == 2 {
+        let mut e = ParsedPacket::empty();
+        let base = e.packet().to_vec();
+        return eval(&mut e, &base, s, word, arg);
+    }
+    let base = if obj == 1 { base_packet_with_records() } else { base_packet() };
     let mut pp = match lib_parse(&base) {
         Ok(Ok(p)) => p,
         _ => fail!("HARNESS: C12 base packet rejected", ""),
@@ -286,6 +310,53 @@ pub fn check_c12(ctx: &Ctx, known: &KnownFindings) -> Report {
                     }
                     id += threads as u32;
                 }
+                // two more objects, reduced argument sets: a response with records in every section, and
+                // the header-only 12-byte packet of ParsedPacket::empty()
+                let base2 = base_packet_with_records();
+                let mut objs: Vec<(Vec<u8>, ParsedPacket)> = vec![];
+                if let Ok(Ok(p2)) = lib_parse(&base2) {
+                    objs.push((base2, p2));
+                }
+                let e = ParsedPacket::empty();
+                objs.push((e.packet().to_vec(), e));
+                for (b, p) in objs.iter_mut() {
+                    let obj: u8 = if b.len() == 12 { 2 } else { 1 };
+                    let mut run2 = |s: Setter, word: u16, arg: u32, mask: u16, n: &mut u64, nt: &mut u64| {
+                        *n += 1;
+                        if word & !mask != 0 {
+                            *nt += 1;
+                        }
+                        if let Err(f) = eval(p, b, s, word, arg) {
+                            if ks.iter().any(|k| f.sig.contains(k.as_str())) {
+                                return;
+                            }
+                            let mut fl = failures.lock().unwrap();
+                            if fl.len() < 8 && !fl.iter().any(|(g, _)| g.sig == f.sig) {
+                                fl.push((f, encode_case_obj(s, word, arg, obj)));
+                            }
+                        }
+                    };
+                    let mut word = t as u32;
+                    while word <= 0xffff {
+                        let w = word as u16;
+                        for a in [0u32, 1, 2, 5, 15, 16, 31, 255] {
+                            run2(Setter::Rcode, w, a, 0x000f, &mut n, &mut nt);
+                            run2(Setter::Opcode, w, a, 0x7800, &mut n, &mut nt);
+                            run2(Setter::CRcode, w, a, 0x000f, &mut n, &mut nt);
+                            run2(Setter::COpcode, w, a, 0x7800, &mut n, &mut nt);
+                        }
+                        for a in [0u32, 0xffff, 0x8000, 0x7fff, 0xffff_0000 | (w as u32 ^ 0xffff)] {
+                            run2(Setter::Flags, w, a, FLAG_BITS, &mut n, &mut nt);
+                            run2(Setter::CFlags, w, a, FLAG_BITS, &mut n, &mut nt);
+                        }
+                        for a in 0..2u32 {
+                            run2(Setter::Response, w, a, 0x8000, &mut n, &mut nt);
+                            run2(Setter::StaticResponse, w, a, 0x8000, &mut n, &mut nt);
+                        }
+                        run2(Setter::Tid, w, w as u32 ^ 0x1234, 0, &mut n, &mut nt);
+                        word += threads as u32;
+                    }
+                }
                 *evals.lock().unwrap() += n;
                 *nontrivial.lock().unwrap() += nt;
             });
@@ -307,9 +378,9 @@ pub fn check_c12(ctx: &Ctx, known: &KnownFindings) -> Report {
     rep.extra.insert(
         "exhaustive_subspace".into(),
         json!(if thorough {
-            "set_flags: all 65536 header words x all 65536 low argument halves (+ sampled upper halves); set_rcode/set_opcode (method and C table entry): 65536 x 256; C-table set_flags: 65536 x 98 x 2; set_response (method and DNSSector::set_response): 65536 x 2; set_tid: 65536 ids x 32 words; argument-outer pass: 98 arguments x 1772 words x 7 setters"
+            "set_flags: all 65536 header words x all 65536 low argument halves (+ sampled upper halves); set_rcode/set_opcode (method and C table entry): 65536 x 256; C-table set_flags: 65536 x 98 x 2; set_response (method and DNSSector::set_response): 65536 x 2; set_tid: 65536 ids x 32 words; argument-outer pass: 98 arguments x 1772 words x 7 setters; all 65536 words x 47 (setter, argument) pairs on a response with records in every section and on ParsedPacket::empty()"
         } else {
-            "set_flags: all 65536 header words x {0, 0xffff, 16 one-hot, 16 one-cold, 64 drawn, complement of the word} x upper halves {0, all ones, one-hot, drawn}; set_rcode/set_opcode (method and C table entry): 65536 x 256; C-table set_flags: 65536 x 98 x 2; set_response (method and DNSSector::set_response): 65536 x 2; set_tid: 65536 ids x 32 words; argument-outer pass (same argument while the header word changes): 98 arguments x 1772 words x 7 setters"
+            "set_flags: all 65536 header words x {0, 0xffff, 16 one-hot, 16 one-cold, 64 drawn, complement of the word} x upper halves {0, all ones, one-hot, drawn}; set_rcode/set_opcode (method and C table entry): 65536 x 256; C-table set_flags: 65536 x 98 x 2; set_response (method and DNSSector::set_response): 65536 x 2; set_tid: 65536 ids x 32 words; argument-outer pass (same argument while the header word changes): 98 arguments x 1772 words x 7 setters; all 65536 words x 47 (setter, argument) pairs on two more objects: a response with answer, authority and additional records, and the 12-byte packet of ParsedPacket::empty()"
         }),
     );
     // the enumeration has no duplicates, so the count of non-trivial triples is exact
